@@ -43,54 +43,67 @@ def grep_gate():
                 bad.append("%s: %s outside a section" % (vf, s[:40]))
     return bad
 
+def property_files(prop):
+    """Properties/<prop>.v plus companion files Properties/<prop><Suffix>.v"""
+    d = os.path.join(build.COQ, "Properties")
+    fs = []
+    if os.path.isdir(d):
+        for f in sorted(os.listdir(d)):
+            if re.match(r"^%s([A-Za-z_][A-Za-z0-9_]*)?\.v$" % prop, f):
+                fs.append("Properties/" + f)
+    return fs
+
 def check_obligations(prop, st):
-    """compile Properties/<prop>.v on its own, parse Print Assumptions output"""
-    vf = "Properties/%s.v" % prop
-    path = os.path.join(build.COQ, vf)
-    thms = theorems_of(path)
-    res = {"file": vf, "theorems": thms, "obligations": len(thms), "discharged": 0, "assumptions": {}, "broken": [],
-           "checker_cmd": "cd /verif/coq && make -k -j16 (coq_makefile, full .vo build) ; coqc -Q . GT %s (Print Assumptions under every theorem)" % vf}
-    if not thms:
+    """compile the property files on their own, parse Print Assumptions output"""
+    files = property_files(prop)
+    res = {"file": ", ".join(files), "theorems": [], "obligations": 0, "discharged": 0, "assumptions": [], "broken": [],
+           "checker_cmd": "cd /verif/coq && make -k -j16 (coq_makefile, full .vo build) ; coqc -Q . GT %s (Print Assumptions under every theorem)" % " ".join(files)}
+    if "Properties/%s.v" % prop not in files:
         res["broken"].append("no Properties file")
         return res
-    deps_failed = [f for f in st.get("coq_failed", [])]
-    if vf in deps_failed or not build.built(vf):
-        res["broken"].append("%s does not compile (failed files: %s)" % (vf, ", ".join(deps_failed)))
-        res["log"] = st.get("coq_log", "")[-4000:]
-        return res
+    used = set()
     outdir = os.path.join(build.BUILD, "props")
     os.makedirs(outdir, exist_ok=True)
-    rc, out = build.sh(["coqc", "-Q", ".", "GT", "-w", "-all", "-o", os.path.join(outdir, prop + ".vo"), vf], cwd=build.COQ, timeout=900)
-    if rc != 0:
-        res["broken"].append("coqc %s failed" % vf)
-        res["log"] = out[-4000:]
-        return res
-    # Print Assumptions blocks: either "Closed under the global context" or "Axioms:\n name : type ..."
-    blocks = re.split(r"(?=Closed under the global context|Axioms:)", out)
-    blocks = [b for b in blocks if b.startswith("Closed") or b.startswith("Axioms:")]
-    res["print_assumptions_blocks"] = len(blocks)
-    bad_ax = []
-    used = set()
-    for b in blocks:
-        if b.startswith("Axioms:"):
-            for m in re.finditer(r"^([A-Za-z_][\w.']*)\s*:", b, flags=re.M):
-                name = m.group(1)
-                if name == "Axioms":
-                    continue
-                used.add(name)
-                if name not in ALLOWED_AXIOMS and name.split(".")[-1] not in ALLOWED_AXIOMS:
-                    bad_ax.append(name)
+    deps_failed = [f for f in st.get("coq_failed", [])]
+    for vf in files:
+        thms = theorems_of(os.path.join(build.COQ, vf))
+        res["theorems"] += thms
+        res["obligations"] += len(thms)
+        if not thms:
+            res["broken"].append("%s states no theorem" % vf)
+            continue
+        if vf in deps_failed or not build.built(vf):
+            res["broken"].append("%s does not compile (failed files: %s)" % (vf, ", ".join(deps_failed)))
+            res["log"] = st.get("coq_log", "")[-4000:]
+            continue
+        rc, out = build.sh(["coqc", "-Q", ".", "GT", "-w", "-all", "-o", os.path.join(outdir, os.path.basename(vf) + "o"), vf], cwd=build.COQ, timeout=900)
+        if rc != 0:
+            res["broken"].append("coqc %s failed" % vf)
+            res["log"] = out[-4000:]
+            continue
+        blocks = re.split(r"(?=Closed under the global context|Axioms:)", out)
+        blocks = [b for b in blocks if b.startswith("Closed") or b.startswith("Axioms:")]
+        bad_ax = []
+        for b in blocks:
+            if b.startswith("Axioms:"):
+                for m in re.finditer(r"^([A-Za-z_][\w.']*)\s*:", b, flags=re.M):
+                    name = m.group(1)
+                    if name == "Axioms":
+                        continue
+                    used.add(name)
+                    if name not in ALLOWED_AXIOMS and name.split(".")[-1] not in ALLOWED_AXIOMS:
+                        bad_ax.append(name)
+        if len(blocks) < len(thms):
+            res["broken"].append("%s: only %d Print Assumptions for %d theorems" % (vf, len(blocks), len(thms)))
+        if bad_ax:
+            res["broken"].append("%s: unexpected axioms: %s" % (vf, ", ".join(sorted(set(bad_ax)))))
+        if not any(x.startswith(vf) or x.startswith("coqc " + vf) for x in res["broken"]):
+            res["discharged"] += len(thms)
     res["assumptions"] = sorted(used)
-    if len(blocks) < len([t for t in thms]):
-        # every theorem must be followed by Print Assumptions
-        res["broken"].append("only %d Print Assumptions for %d theorems" % (len(blocks), len(thms)))
-    if bad_ax:
-        res["broken"].append("unexpected axioms: " + ", ".join(sorted(set(bad_ax))))
     gate = grep_gate()
     if gate:
         res["broken"].append("grep gate: " + "; ".join(gate[:5]))
-    if not res["broken"]:
-        res["discharged"] = len(thms)
+        res["discharged"] = 0
     return res
 
 def run_cases(prop, cases, nproc=16, chunk=200, timeout=900):
